@@ -15,6 +15,9 @@ order, integral / mgf ties) + differential correspondence on the real classes:
               moments equal the specification of the original draw
   pipeline    E(y^k)(n) from the full pipeline for draws with variable / random / symbolic parameters against the
               specification with the substituted parameters
+  history     several objects of one family sharing some but not all parameters in ONE process, the same moments
+              asked in two orders (caches keyed on too little, class-level state, stale memoisation), and programs
+              with two draws of one family that differ in one parameter
   spec        the textbook recurrences of the continuous families against quadrature of the density (oracle)
 """
 import json
@@ -154,6 +157,7 @@ def param_sets(tier, r):
     add("Gamma", ["2.5", "0.5"], [Fr(5, 2), Fr(1, 2)], "float")
     add("Gamma", ["k", "2"], [3, 2], "symbolic", {"k": "3"})
     add("Beta", ["1", "3"], [1, 3], "rational")
+    add("Beta", ["2", "3", "4"], [2, 3, 4], "rational")
     add("Beta", ["1/2", "1/2"], [Fr(1, 2), Fr(1, 2)], "rational")
     add("Beta", ["5", "8", "3/2"], [5, 8, Fr(3, 2)], "rational")
     add("Beta", ["0.5", "1.5", "2.0"], [Fr(1, 2), Fr(3, 2), 2], "float")
@@ -367,6 +371,8 @@ def rewrite_cases(tier, r):
     # Normal
     drift("Normal", ["x", "4"], lambda x: [x, Fr(4)], Fr(0), Fr(1), "normal-mean-var")
     drift("Normal", ["2*x + 1", "2"], lambda x: [2 * x + 1, Fr(2)], Fr(-1), Fr(1, 2), "normal-affine-mean-irrational-sigma")
+    drift("Normal", ["x", "9/4"], lambda x: [x, Fr(9, 4)], Fr(0), Fr(1), "normal-variance-fraction")
+    drift("Normal", ["x + 1", "2.5"], lambda x: [x + 1, Fr(5, 2)], Fr(0), Fr(1), "normal-variance-float-literal")
     drift("Normal", ["1", "x**2"], lambda x: [Fr(1), x * x], Fr(1), Fr(1), "normal-variance-square")
     finite("Normal", ["u", "u + 1"], lambda u: [u, u + 1], "DiscreteUniform(1, 3)", du, "normal-random-mean-variance")
     finite("Normal", ["u", "u + 1"], lambda u: [u, u + 1], "Bernoulli(1/2)", [(Fr(1, 2), Fr(0)), (Fr(1, 2), Fr(1))],
@@ -431,6 +437,76 @@ def trig_cases():
                     "goals": [[["c", 2]], [["c", 1], ["s", 1]], [["s", 2]], [["c", 1]]],
                     "expected": [exp_over(vals, lambda v: mp.cos(v) ** 2), exp_over(vals, lambda v: mp.cos(v) * mp.sin(v)),
                                  exp_over(vals, lambda v: mp.sin(v) ** 2), exp_over(vals, mp.cos)]})
+    return out
+
+
+def history_groups(tier, r):
+    """groups of objects of one family that share some but not all parameters (same shape / different scale, same
+    mean / different variance, same bounds / different mean, ...), some repeated; values are exact"""
+    F = Fr
+    fixed = {
+        "Bernoulli": [[F(1, 3)], [F(2, 3)], [F(1, 3)]],
+        "Normal": [[F(1), F(4)], [F(1), F(9)], [F(2), F(4)], [F(1), F(4)]],
+        "Uniform": [[F(0), F(1)], [F(0), F(2)], [F(-1), F(1)], [F(0), F(1)]],
+        "DistExp": [[F(2)], [F(3)], [F(2)], [F(1, 2)]],
+        "Laplace": [[F(1), F(2)], [F(1), F(3)], [F(0), F(2)]],
+        "Gamma": [[F(2), F(3)], [F(2), F(1, 2)], [F(3), F(3)], [F(2), F(3)]],
+        "Beta": [[F(2), F(3)], [F(2), F(3), F(4)], [F(3), F(2), F(5)], [F(3), F(2)], [F(2), F(3), F(1, 2)], [F(2), F(3), F(1)]],
+        "Categorical": [[F(1, 2), F(1, 2)], [F(1, 4), F(3, 4)], [F(1, 4), F(1, 4), F(1, 2)], [F(1, 2), F(1, 2), F(0)]],
+        "DiscreteUniform": [[F(0), F(3)], [F(0), F(4)], [F(1), F(3)], [F(0), F(3)]],
+        "TruncNormal": [[F(0), F(1), F(-1), F(1)], [F(0), F(1), F(-2), F(2)], [F(1), F(1), F(-1), F(1)], [F(0), F(4), F(-1), F(1)]],
+    }
+    groups = [{"name": n, "objects": v} for n, v in fixed.items()]
+    # a second Beta group in the opposite order (scaled first)
+    groups.append({"name": "Beta", "objects": [[F(1), F(2), F(3)], [F(1), F(2)], [F(1, 2), F(3, 2), F(2)], [F(1, 2), F(3, 2)]]})
+    extra = 1 if tier == "quick" else 6
+    for _ in range(extra):
+        for name in fixed:
+            base = list(r.choice(fixed[name]))
+            objs = [base]
+            for j in range(len(base)):
+                v = list(base)
+                if name == "Categorical":
+                    continue
+                if name == "DiscreteUniform":
+                    v[j] = v[j] + (r.randint(1, 3) if j == 1 else -r.randint(1, 3))
+                elif name == "Bernoulli":
+                    v[j] = F(r.randint(0, 6), 6)
+                elif name == "TruncNormal":
+                    v[j] = v[j] + (F(r.randint(1, 2)) if j == 3 else (-F(r.randint(1, 2)) if j == 2 else
+                                   (F(r.randint(1, 2), 2) if j == 0 else 3 * v[j])))
+                elif name == "Uniform":
+                    v[j] = v[j] + (F(r.randint(1, 4), 2) if j == 1 else -F(r.randint(1, 4), 2))
+                elif name in ("Normal", "Laplace") and j == 0:
+                    v[j] = v[j] + F(r.randint(-4, 4), 2)
+                else:
+                    v[j] = v[j] * F(r.randint(2, 5), r.choice((1, 2, 3))) if v[j] != 0 else F(1)
+                objs.append(v)
+            if name == "Beta":
+                objs.append(list(base[:2]) + [F(r.randint(2, 7), r.choice((1, 2)))])
+            r.shuffle(objs)
+            objs.append(list(objs[0]))
+            groups.append({"name": name, "objects": objs})
+    return groups
+
+
+def pair_programs(tier):
+    """end-to-end: two draws of the same family that differ in one parameter, in one program"""
+    F = Fr
+    pairs = [("Beta", [F(1), F(2)], [F(1), F(2), F(3)]), ("Beta", [F(2), F(3), F(4)], [F(2), F(3)]),
+             ("Normal", [F(1), F(4)], [F(1), F(9)]), ("Gamma", [F(2), F(3)], [F(2), F(1, 2)])]
+    if tier != "quick":
+        pairs += [("Laplace", [F(1), F(2)], [F(1), F(3)]), ("Uniform", [F(0), F(1)], [F(0), F(2)]),
+                  ("DistExp", [F(2)], [F(3)]), ("Normal", [F(0), F(2)], [F(3), F(2)]), ("Beta", [F(3), F(2), F(5)], [F(2), F(2), F(5)])]
+    out = []
+    for name, p1, p2 in pairs:
+        def lit(v):
+            return str(v.numerator) if v.denominator == 1 else fs(v)
+        text = _prog(["d1 = 0", "d2 = 0", "z = 0"],
+                     [f"d1 = {name}({', '.join(lit(v) for v in p1)})", f"d2 = {name}({', '.join(lit(v) for v in p2)})", "z = z + d1 + d2"])
+        goals = [[["d1", k]] for k in (1, 2, 3)] + [[["d2", k]] for k in (1, 2, 3)] + [[["d1", 1], ["d2", 1]], [["d1", 2], ["d2", 1]], [["z", 1]]]
+        out.append({"text": text, "name": name, "p1": p1, "p2": p2, "goals": goals,
+                    "tag": f"pair-{name}({','.join(lit(v) for v in p1)})-({','.join(lit(v) for v in p2)})"})
     return out
 
 
@@ -528,6 +604,20 @@ def run(tier, only=None):
                 if key not in mix_index and rc["name"] != "TruncNormal":
                     mix_index[key] = len(reqs)
                     reqs.append(spec_request(rc["name"], list(vals), max(kpipe, kmax)))
+    hgroups = history_groups(tier, r)
+    pprogs = pair_programs(tier)
+    for g in hgroups:
+        for vals in g["objects"]:
+            key = (g["name"], tuple(vals))
+            if key not in mix_index and g["name"] != "TruncNormal":
+                mix_index[key] = len(reqs)
+                reqs.append(spec_request(g["name"], list(vals), max(kpipe, kmax)))
+    for pp in pprogs:
+        for vals in (pp["p1"], pp["p2"]):
+            key = (pp["name"], tuple(vals))
+            if key not in mix_index:
+                mix_index[key] = len(reqs)
+                reqs.append(spec_request(pp["name"], list(vals), max(kpipe, kmax)))
     answers = model_batch(reqs)
     model_fail = [(q, a) for q, a in zip(reqs, answers) if not a.get("ok")]
     # DiscreteUniform etc. are always admissible here, so every request must be answered
@@ -580,6 +670,14 @@ def run(tier, only=None):
         add_task("pipeline", j, "harness.tasks.analyze:analyze",
                  {"text": rc["text"], "goals": [[[rc["target"], k]] for k in range(1, kpipe + 1)],
                   "subs": rc["point"], "nmax": nmax}, 150 if quick else 400)
+    khist = 4 if quick else 6
+    for j, g in enumerate(hgroups):
+        add_task("history", j, "history",
+                 {"objects": [{"name": g["name"], "params": [fs(v) if v.denominator != 1 else str(v.numerator) for v in vals]}
+                              for vals in g["objects"]], "kmax": khist}, t_task)
+    for j, pp in enumerate(pprogs):
+        add_task("pair", j, "harness.tasks.analyze:analyze", {"text": pp["text"], "goals": pp["goals"], "nmax": 2},
+                 150 if quick else 400)
     tcases = trig_cases()
     for j, tc in enumerate(tcases):
         add_task("trig", j, "harness.tasks.analyze:analyze", {"text": tc["text"], "goals": tc["goals"], "nmax": 1},
@@ -591,7 +689,7 @@ def run(tier, only=None):
     trunc_repairs = []          # (set index, failing ks, records) → second round
     trunc_models = []
     n_cmp = {"moments": 0, "impl": 0, "support": 0, "transform": 0, "mgf_exists": 0, "rewrite": 0, "pipeline": 0,
-             "subs": 0, "at0": 0}
+             "subs": 0, "at0": 0, "history": 0}
     for (kind, ref), res in zip(meta, results):
         if not _task_ok(chk, res, kind):
             continue
@@ -612,6 +710,10 @@ def run(tier, only=None):
             eval_pipeline(chk, rcases[ref], out, spec_of, kpipe, nmax, n_cmp)
         elif kind == "trig":
             eval_trig(chk, tcases[ref], out, n_cmp)
+        elif kind == "history":
+            eval_history(chk, hgroups[ref], out, spec_of, n_cmp)
+        elif kind == "pair":
+            eval_pair(chk, pprogs[ref], out, spec_of, n_cmp)
 
     # TruncNormal: attribution round (in-memory repair) and Lean model of the recursion
     eval_truncnormal_round2(chk, sets, trunc_repairs, trunc_models, kmax, t_task)
@@ -630,6 +732,8 @@ def run(tier, only=None):
     chk.obligation("correspondence:mgf_exists_at", n_cmp["mgf_exists"] > 0, {"compared": n_cmp["mgf_exists"]})
     chk.obligation("correspondence:DistTransformer-structure-and-moments", n_cmp["rewrite"] > 0, {"compared": n_cmp["rewrite"]})
     chk.obligation("correspondence:pipeline-moments-of-parametrised-draws", n_cmp["pipeline"] > 0, {"compared": n_cmp["pipeline"]})
+    chk.obligation("correspondence:history-sensitivity(several objects of one family in one process, two orders)",
+                   n_cmp["history"] > 0, {"compared": n_cmp["history"], "groups": len(hgroups)})
     if chk.harness_errors:
         chk.coverage["harness_errors"] = chk.harness_errors[:10]
     chk.assumptions = [
@@ -1075,6 +1179,91 @@ def eval_pipeline(chk, rc, out, spec_of, kpipe, nmax, n_cmp):
         _fail(chk, m, group=rc["text"])
 
 
+def eval_history(chk, g, out, spec_of, n_cmp):
+    name = g["name"]
+    if "construct_error" in out:
+        chk.count(f"history-refused-construct:{name}")
+        return
+    task = {"fn": "history", "args": {"objects": out["objects"], "kmax": max(a["k"] for a in out["passes"][0]["answers"])}}
+    truth = {}
+    if name == "TruncNormal":
+        kk = sorted({a["k"] for a in out["passes"][0]["answers"]})
+        for i, vals in enumerate(g["objects"]):
+            t = mp_truth_truncnormal(vals, kk)
+            truth[i] = {k: mp_to_fr(t[k]) for k in kk}
+    for ps in out["passes"]:
+        for a in ps["answers"]:
+            i, k = a["obj"], a["k"]
+            vals = g["objects"][i]
+            if a["tag"] != "q":
+                chk.count(f"history-refused:{name}:{a.get('err', {}).get('etype', a['tag'])}")
+                continue
+            n_cmp["history"] += 1
+            got = Fr(a["val"])
+            if name == "TruncNormal":
+                exp = truth[i][k]
+                ok = rel_err(got, exp) <= TRUNC_TOL
+            else:
+                exp = spec_of(name, vals)[k]
+                ok = got == exp
+            if not ok:
+                _fail(chk, {"kind": "history", "name": name, "objects": out["objects"], "pass": ps["order"], "obj": i, "k": k,
+                            "expected": fs(exp), "actual": canon(a["val"]),
+                            "what": f"{name}({', '.join(out['objects'][i]['params'])}).get_moment({k}) = {canon(a['val'])} "
+                                    f"(true {fs(exp)}) when {len(out['objects'])} {name} objects "
+                                    f"[{'; '.join(','.join(o['params']) for o in out['objects'])}] live in one process, pass {ps['order']}",
+                            "task": task})
+            elif k >= 1:
+                chk.nontrivial.add(("h", name, tuple(tuple(o["params"]) for o in out["objects"]), ps["order"], i, k))
+        # supports of the individual objects
+        for i, sp in enumerate(ps["supports"]):
+            ts = true_support(name, g["objects"][i])
+            if isinstance(sp, dict) or ts[0] != "interval":
+                continue
+            n_cmp["history"] += 1
+            want = [{"lo": ["inf", "-oo"] if ts[1] is None else ["q", fs(ts[1])], "hi": ["inf", "oo"] if ts[2] is None else ["q", fs(ts[2])]}]
+            got = [{"lo": [x["lo"][0], canon(x["lo"][1]) if x["lo"][0] == "q" else x["lo"][1]],
+                    "hi": [x["hi"][0], canon(x["hi"][1]) if x["hi"][0] == "q" else x["hi"][1]]} for x in sp if "lo" in x]
+            if got != want:
+                _fail(chk, {"kind": "history-support", "name": name, "objects": out["objects"], "obj": i, "expected": want,
+                            "actual": sp, "what": f"{name}({', '.join(out['objects'][i]['params'])}).get_support() = {sp}, expected {want} "
+                                                  f"(several {name} objects in one process)", "task": task})
+
+
+def eval_pair(chk, pp, out, spec_of, n_cmp):
+    name = pp["name"]
+    task = {"fn": "harness.tasks.analyze:analyze", "args": {"text": pp["text"], "goals": pp["goals"], "nmax": 2}}
+    if not out.get("accepted"):
+        chk.count(f"pipeline-refused:{pp['tag']}:{out.get('error', {}).get('etype')}")
+        return
+    m1, m2 = spec_of(name, pp["p1"]), spec_of(name, pp["p2"])
+    for g in out["goals"]:
+        mono = {v: k for v, k in g["mono"]}
+        goal = "*".join(f"{v}^{k}" for v, k in g["mono"])
+        if not g.get("ok"):
+            chk.count(f"pipeline-goal-refused:{pp['tag']}:{g.get('error', {}).get('etype')}")
+            continue
+        for n, v in enumerate(g["values"]):
+            if "z" in mono:
+                exp = n * (m1[1] + m2[1])
+            elif n == 0:
+                exp = Fr(0)
+            else:
+                exp = m1[mono.get("d1", 0)] * m2[mono.get("d2", 0)]
+            if v[0] != "q":
+                chk.count(f"pipeline-value-undetermined:{pp['tag']}:{v[0]}")
+                continue
+            n_cmp["pipeline"] += 1
+            if Fr(v[1]) != exp:
+                _fail(chk, {"kind": "pipeline", "text": pp["text"], "goal": goal.replace("^1", "^1"), "k": 0, "n": n, "expected": fs(exp),
+                            "actual": canon(v[1]), "family": name, "point": None, "tag": pp["tag"], "mono": g["mono"],
+                            "what": f"E({goal})({n}) = {canon(v[1])} for `{pp['tag']}`, specification {fs(exp)}", "task": task},
+                      group=pp["text"])
+            elif n >= 1:
+                chk.nontrivial.add(("pair", pp["tag"], goal, n))
+    chk.count("pipeline-case:pair")
+
+
 def eval_trig(chk, tc, out, n_cmp):
     args = {"text": tc["text"], "goals": tc["goals"], "nmax": 1}
     task = {"fn": "harness.tasks.analyze:analyze", "args": args}
@@ -1231,10 +1420,20 @@ def replay(path):
         except Exception:  # noqa
             still = True
     elif kind == "pipeline":
-        g = next((x for x in out.get("goals", []) if f"{x['mono'][0][0]}^{x['mono'][0][1]}" == blob["goal"]), None)
+        g = next((x for x in out.get("goals", []) if "*".join(f"{v}^{k}" for v, k in x["mono"]) == blob["goal"]), None)
         v = g["values"][blob["n"]] if g and g.get("ok") else None
         print("actual:", v)
         still = v is None or v[0] != "q" or Fr(v[1]) != Fr(blob["expected"])
+    elif kind == "history":
+        ps = next((x for x in out.get("passes", []) if x["order"] == blob["pass"]), None)
+        a = next((x for x in (ps or {}).get("answers", []) if x["obj"] == blob["obj"] and x["k"] == blob["k"]), None)
+        print("actual:", a)
+        if a is None or a.get("tag") != "q":
+            still = True
+        elif blob["name"] == "TruncNormal":
+            still = rel_err(Fr(a["val"]), Fr(blob["expected"])) > TRUNC_TOL
+        else:
+            still = Fr(a["val"]) != Fr(blob["expected"])
     else:
         print("actual:", json.dumps(out)[:1500])
         still = True
